@@ -231,6 +231,13 @@ class MNF:
         # M[np.ix_(r, c)] is the block M[r, :][:, c]
         if isinstance(idx, tuple) and idx and idx[0] == "ext" and idx[1] == "numpy.ix_" and len(idx[2]) == 2 and not idx[3]:
             return self.block(base, idx[2][0], idx[2][1])
+        # M[r][:, c]: a missing trailing index is a full slice (the base must be at least 2-D for [:, c] to apply, so M[r] selects rows)
+        if base[0] == "sub" and idx[0] == "tuple" and len(idx[1]) == 2 and idx[1][0] == FULL and base[2][0] not in ("tuple", "slice") and not self.scalar_like(base[2]):
+            return self.block(base[1], base[2], idx[1][1])
+        # M[:, c][r]: rows r of the column selection
+        if base[0] == "sub" and base[2][0] == "tuple" and len(base[2][1]) == 2 and base[2][1][0] == FULL and idx[0] not in ("tuple", "slice") and not self.scalar_like(idx) \
+                and not self.scalar_like(base[2][1][1]):
+            return self.block(base[1], idx, base[2][1][1])
         # M[r, :][:, c]  /  M[:, c][r, :]
         if base[0] == "sub" and idx[0] == "tuple" and len(idx[1]) == 2 and base[2][0] == "tuple" and len(base[2][1]) == 2:
             (r1, c1), (r2, c2) = base[2][1], idx[1]
@@ -243,6 +250,8 @@ class MNF:
             rk = ("scalar", r) if self.scalar_like(r) else r
             ck = ("scalar", c) if self.scalar_like(c) else c
             return self.block(base, rk, ck)
+        if idx[0] != "tuple" and idx[0] != "slice" and base in self.symmetric:
+            return self.subscript(("sub", base, ("tuple", (idx, FULL))))           # for a known matrix M[y] is M[y, :]
         if idx[0] != "tuple":
             ik = ("scalar", idx) if self.scalar_like(idx) else self.idx_key(idx)
             return {(("V", base, ik),): Fraction(1)}
